@@ -215,6 +215,10 @@ AddRxns(C, specs) ==
 A_AddReactions(C, specs) ==
   IF \E i, j \in 1..Len(specs) : i # j /\ specs[i].id = specs[j].id /\ specs[i].id \notin C.rxns
   THEN FailAtomic(C, "ValueError")
+  \* the user variable "uvr4" carries the name reaction r4 needs for its forward variable: the solver rejects the
+  \* reaction part-way through the call (nothing is documented about the state then; a context still restores)
+  ELSE IF "uvr4" \in C.xcols /\ (\E i \in 1..Len(specs) : specs[i].id = "r4") /\ "r4" \notin C.rxns
+  THEN FailLoose(C, "KeyError")
   ELSE Ok(AddRxns(C, specs))
 
 \* model.remove_reactions(list of objects or ids, remove_orphans)
